@@ -155,7 +155,7 @@ theorem foldl_applyAct_appData (acts : List Act) (i : Inner) :
 
 theorem runHandler_rootFirst (cfg : Cfg) (i : Inner) (acts : List Act) (h : RootFirst cfg i) :
     RootFirst cfg (runHandler cfg i acts).inner := by
-  have h1 := route_rootFirst cfg (cfg.depth + 1) cfg.kids i h
+  have h1 := route_rootFirst cfg (cfg.depth + 1) cfg.kids _ (pushData_rootFirst (cfg.mw i.head) h)
   obtain ⟨rest, hr⟩ := h1
   unfold runHandler
   split <;> exact ⟨rest, by simp [foldl_applyAct_appData, hr]⟩
